@@ -2,6 +2,7 @@
 
 #include <llvm/Bitcode/BitcodeWriter.h>
 #include <llvm/Support/FileSystem.h>
+#include <llvm/Support/MemoryBuffer.h>
 
 void emitFunction(Ctx& C, Function& F, raw_ostream& protoOut, raw_ostream& bodyOut, int& nVisible);
 
@@ -9,6 +10,10 @@ static cl::opt<std::string> Input(cl::Positional, cl::desc("<input .ll>"), cl::R
 static cl::opt<std::string> Output("o", cl::desc("output"), cl::init("-"));
 static cl::opt<std::string> Mode("mode", cl::desc("seq|res|instr"), cl::init("seq"));
 static cl::opt<std::string> Prefix("prefix", cl::desc("root prefix: <p>main | <p>init,<p>thread_<i>,<p>final"), cl::init("verif_"));
+static cl::opt<std::string> KnownFile("known", cl::desc("file listing external functions modelled by the runtime"), cl::init(""));
+static cl::opt<std::string> Benign("benign", cl::desc("comma separated mangled-name prefixes stubbed as no-ops returning zero"),
+    cl::init("_ZN3fmt,_ZNK3fmt,__assert_fail,_ZNSt3_V214error_categoryD,_ZNSt8ios_base4Init"));
+static cl::opt<bool> Chain("chain", cl::desc("res mode: skip-chain layout"), cl::init(false));
 static cl::opt<std::string> Meta("meta", cl::desc("metadata json output"), cl::init(""));
 
 static void scanConst(Ctx& C, Constant* K, std::vector<Function*>& wl, SmallPtrSetImpl<Constant*>& seen, bool asCallee);
@@ -138,18 +143,9 @@ int main(int argc, char** argv)
     Module& M = *MP;
     std::error_code EC;
 
-    if (Mode == "instr")
-    {
-        int n = instrument(M);
-        if (verifyModule(M, &errs())) die("instrumented module does not verify");
-        raw_fd_ostream out(Output, EC, sys::fs::OF_Text);
-        M.print(out, nullptr);
-        errs() << "ll2c: instrumented " << n << " visible operations\n";
-        return 0;
-    }
-
     Ctx C(M);
     C.res = (Mode == "res");
+    C.chain = Chain;
     C.prefix = Prefix;
 
     // roots
@@ -176,33 +172,154 @@ int main(int argc, char** argv)
         roots.push_back(&F);
     }
     if (roots.empty()) die("no root functions with prefix " + Prefix);
+    // dynamic initialisers of globals (llvm.global_ctors) run before the scenario
+    std::vector<Function*> ctors;
+    if (GlobalVariable* GC = M.getGlobalVariable("llvm.global_ctors"))
+        if (auto* CA = dyn_cast<ConstantArray>(GC->getInitializer()))
+        {
+            std::vector<std::pair<uint64_t, Function*>> pc;
+            for (Value* E : CA->operands())
+            {
+                auto* CS = cast<ConstantStruct>(E);
+                if (auto* F = dyn_cast<Function>(CS->getOperand(1)->stripPointerCasts()))
+                    pc.push_back({cast<ConstantInt>(CS->getOperand(0))->getZExtValue(), F});
+            }
+            std::stable_sort(pc.begin(), pc.end(), [](auto& a, auto& b) { return a.first < b.first; });
+            for (auto& p : pc)
+            {
+                ctors.push_back(p.second);
+                roots.push_back(p.second);
+            }
+        }
     for (Function* T : threads)
         if (!T) die("thread roots must be numbered contiguously from 0");
 
-    std::vector<Function*> wl;
-    SmallPtrSet<Constant*, 32> seen;
-    for (Function* R : roots)
-        if (C.reachF.insert(R).second) wl.push_back(R);
-    while (!wl.empty())
-    {
-        Function* F = wl.back();
-        wl.pop_back();
-        if (F->isDeclaration()) continue;
-        C.funcs.push_back(F);
-        for (Instruction& I : instructions(*F))
+    auto reach = [&](Ctx& X, const std::vector<Function*>& rts) {
+        std::vector<Function*> wl;
+        SmallPtrSet<Constant*, 32> seen;
+        for (Function* R : rts)
+            if (X.reachF.insert(R).second) wl.push_back(R);
+        while (!wl.empty())
         {
-            for (unsigned i = 0; i < I.getNumOperands(); ++i)
+            Function* F = wl.back();
+            wl.pop_back();
+            if (F->isDeclaration()) continue;
+            X.funcs.push_back(F);
+            for (Instruction& I : instructions(*F))
             {
-                Value* Op = I.getOperand(i);
-                auto* K = dyn_cast<Constant>(Op);
-                if (!K) continue;
-                bool callee = false;
-                if (auto* CB = dyn_cast<CallBase>(&I)) callee = (CB->getCalledOperand() == Op) && isa<Function>(Op);
-                scanConst(C, K, wl, seen, callee);
+                if (auto* CB = dyn_cast<CallBase>(&I))
+                    if (auto* G = dyn_cast<Function>(CB->getCalledOperand()))
+                        if (C.skipCalls.count(G)) continue;
+                for (unsigned i = 0; i < I.getNumOperands(); ++i)
+                {
+                    Value* Op = I.getOperand(i);
+                    auto* K = dyn_cast<Constant>(Op);
+                    if (!K) continue;
+                    bool callee = false;
+                    if (auto* CB = dyn_cast<CallBase>(&I)) callee = (CB->getCalledOperand() == Op) && isa<Function>(Op);
+                    scanConst(X, K, wl, seen, callee);
+                }
             }
         }
+    };
+    // dynamic initialisers that only touch globals the scenario cannot reach are skipped (identically in
+    // the encoding and in the native replay build)
+    {
+        std::vector<Function*> scen;
+        for (Function* R : roots)
+            if (std::find(ctors.begin(), ctors.end(), R) == ctors.end()) scen.push_back(R);
+        Ctx S0(M);
+        reach(S0, scen);
+        for (Function* T : ctors)
+            for (Instruction& I : instructions(*T))
+                if (auto* CB = dyn_cast<CallBase>(&I))
+                    if (auto* G = dyn_cast<Function>(CB->getCalledOperand()))
+                        if (!G->isDeclaration() && G->getName().startswith("__cxx_global_var_init"))
+                        {
+                            Ctx S1(M);
+                            reach(S1, {G});
+                            bool touches = false;
+                            for (GlobalVariable* GV : S1.globals)
+                                if (S0.reachG.count(GV) && !GV->isConstant() && !GV->getName().startswith("_ZGV") && GV->getName() != "__dso_handle")
+                                    touches = true;
+                            if (!touches) C.skipCalls.insert(G);
+                        }
+        // ctor entries of their own (static members of class templates)
+        std::vector<Function*> kept;
+        for (Function* T : ctors)
+        {
+            bool drop = false;
+            if (T->getName().startswith("__cxx_global_var_init"))
+            {
+                Ctx S1(M);
+                reach(S1, {T});
+                drop = true;
+                for (GlobalVariable* GV : S1.globals)
+                    if (S0.reachG.count(GV) && !GV->isConstant() && !GV->getName().startswith("_ZGV") && GV->getName() != "__dso_handle") drop = false;
+            }
+            if (drop) roots.erase(std::find(roots.begin(), roots.end(), T));
+            else
+                kept.push_back(T);
+        }
+        if (Mode == "instr")
+        {
+            // native build: run every initialiser as usual (those skipped in the encoding cannot influence the scenario)
+            C.skipCalls.clear();
+            for (Function* T : ctors)
+                if (std::find(roots.begin(), roots.end(), T) == roots.end()) roots.push_back(T);
+        }
+        else
+            ctors = kept;
     }
+    reach(C, roots);
     std::sort(C.funcs.begin(), C.funcs.end(), [](Function* a, Function* b) { return a->getName() < b->getName(); });
+
+    if (Mode == "instr")
+    {
+        // prune everything the scenario cannot reach (so that the native link only needs what the encoding
+        // needs), then instrument the visible operations
+        std::set<Function*> keep(C.funcs.begin(), C.funcs.end());
+        int pruned = 0;
+
+        {
+            std::vector<GlobalAlias*> dead;
+            for (GlobalAlias& A : M.aliases())
+            {
+                auto* F = dyn_cast<Function>(A.getAliasee()->stripPointerCasts());
+                if (F && !keep.count(F)) dead.push_back(&A);
+            }
+            for (GlobalAlias* A : dead)
+            {
+                std::string nm = A->getName().str();
+                auto* FT = cast<FunctionType>(A->getValueType());
+                A->setName(nm + ".dead");
+                Function* D = Function::Create(FT, GlobalValue::ExternalLinkage, nm, &M);
+                A->replaceAllUsesWith(D);
+                A->eraseFromParent();
+            }
+        }
+        for (Function& F : M)
+            if (!F.isDeclaration() && !keep.count(&F))
+            {
+                F.deleteBody();
+                F.setLinkage(GlobalValue::ExternalLinkage);
+                F.setComdat(nullptr);
+                ++pruned;
+            }
+        for (GlobalVariable& G : M.globals())
+            if (G.hasInitializer() && !C.reachG.count(&G) && G.getName() != "llvm.global_ctors" && !G.getName().startswith("llvm."))
+            {
+                G.setInitializer(nullptr);
+                G.setLinkage(GlobalValue::ExternalLinkage);
+                G.setComdat(nullptr);
+            }
+        int n = instrument(M);
+        if (verifyModule(M, &errs())) die("instrumented module does not verify");
+        raw_fd_ostream out(Output, EC, sys::fs::OF_Text);
+        M.print(out, nullptr);
+        errs() << "ll2c: instrumented " << n << " visible operations, pruned " << pruned << " unreachable functions\n";
+        return 0;
+    }
 
     // resumable set (fixpoint)
     if (C.res)
@@ -235,7 +352,7 @@ int main(int argc, char** argv)
                         }
                         else
                             for (Function* H : C.addrTaken)
-                                if (H->getFunctionType() == CB->getFunctionType() && C.resumable.count(H)) r = true;
+                                if (compatibleFT(H->getFunctionType(), CB->getFunctionType()) && C.resumable.count(H)) r = true;
                         if (r) break;
                     }
                 }
@@ -262,7 +379,7 @@ int main(int argc, char** argv)
                     if (G) tg.push_back(G);
                     else
                         for (Function* H : C.addrTaken)
-                            if (H->getFunctionType() == CB->getFunctionType()) tg.push_back(H);
+                            if (compatibleFT(H->getFunctionType(), CB->getFunctionType())) tg.push_back(H);
                     for (Function* T : tg)
                     {
                         if (!C.resumable.count(T)) continue;
@@ -371,13 +488,23 @@ int main(int argc, char** argv)
         if (F)
         {
             if (C.res && C.resumable.count(F))
-                glue << "  FRS_" << C.gname(F) << "[verif_cur].pc = 0;\n  if (" << C.gname(F)
-                     << "__step()) { VERIF_ASSERT(0, \"init/final/main blocked or was pre-empted\"); VERIF_ASSUME(0); }\n";
+                glue << "  FRS_" << C.gname(F) << "[verif_cur].pc = 0;\n  verif_mode = 0;\n  if (" << C.gname(F)
+                     << "__step()) { VERIF_ASSERT(0, \"init/final/main blocked or was pre-empted\"); VERIF_ASSUME(0); }\n  verif_mode = 0;\n";
             else
                 glue << "  " << C.gname(F) << "();\n";
         }
         glue << "}\n";
     };
+    glue << "void verif_glue_ctors(void)\n{\n";
+    for (Function* F : ctors)
+    {
+        if (C.res && C.resumable.count(F))
+            glue << "  FRS_" << C.gname(F) << "[verif_cur].pc = 0;\n  verif_mode = 0;\n  if (" << C.gname(F)
+                 << "__step()) { VERIF_ASSERT(0, \"global constructor blocked\"); VERIF_ASSUME(0); }\n  verif_mode = 0;\n";
+        else
+            glue << "  " << C.gname(F) << "();\n";
+    }
+    glue << "}\n";
     callRoot(fInit, "verif_glue_init");
     callRoot(fFinal, "verif_glue_final");
     callRoot(fMain, "verif_glue_main");
@@ -385,7 +512,7 @@ int main(int argc, char** argv)
     glue << "int verif_glue_thread_step(int t)\n{\n  switch (t) {\n";
     for (size_t i = 0; i < threads.size(); ++i)
     {
-        if (C.res) glue << "    case " << i << ": return " << C.gname(threads[i]) << "__step();\n";
+        if (C.res) glue << "    case " << i << ": { int y; verif_mode = 0; y = " << C.gname(threads[i]) << "__step(); verif_mode = 0; return y; }\n";
         else
             glue << "    case " << i << ": " << C.gname(threads[i]) << "(); return 0;\n";
     }
@@ -394,7 +521,19 @@ int main(int argc, char** argv)
     // external prototypes (generic pointer signature)
     std::string extS;
     raw_string_ostream ext(extS);
-    std::string metaExt;
+    std::string metaExt, metaStub;
+    std::set<std::string> known;
+    if (!KnownFile.empty())
+    {
+        auto buf = MemoryBuffer::getFile(KnownFile);
+        if (!buf) die("cannot read " + KnownFile);
+        SmallVector<StringRef, 64> lines;
+        (*buf)->getBuffer().split(lines, '\n');
+        for (StringRef l : lines)
+            if (!l.trim().empty()) known.insert(l.trim().str());
+    }
+    SmallVector<StringRef, 8> benign;
+    StringRef(Benign).split(benign, ',');
     for (Function* F : C.usedExternals)
     {
         if (F->getName().startswith("verif_")) continue;    // declared in verif_gen.h
@@ -405,7 +544,31 @@ int main(int argc, char** argv)
         if (FT->isVarArg()) ext << (FT->getNumParams() ? ", ..." : "...");
         else if (FT->getNumParams() == 0)
             ext << "void";
-        ext << "); /* " << demangle(F->getName().str()) << " */\n";
+        bool isKnown = KnownFile.empty() || known.count(C.gname(F));
+        if (isKnown) ext << "); /* " << demangle(F->getName().str()) << " */\n";
+        else
+        {
+            bool ben = false;
+            for (StringRef b : benign)
+                if (!b.empty() && F->getName().startswith(b)) ben = true;
+            // re-emit with parameter names
+            ext << ");\n" << g(FT->getReturnType()) << " " << C.gname(F) << "(";
+            for (unsigned i = 0; i < FT->getNumParams(); ++i) ext << (i ? ", " : "") << g(FT->getParamType(i)) << " a" << i;
+            if (FT->isVarArg()) ext << (FT->getNumParams() ? ", ..." : "...");
+            else if (FT->getNumParams() == 0)
+                ext << "void";
+            ext << ") /* " << (ben ? "benign stub: " : "UNMODELLED: ") << demangle(F->getName().str()) << " */\n{\n";
+            if (!ben) ext << "  VERIF_ASSERT(0, \"call to unmodelled external function " << F->getName() << "\"); VERIF_ASSUME(0);\n";
+            for (unsigned i = 0; i < FT->getNumParams(); ++i)
+                if (F->hasParamAttribute(i, Attribute::StructRet))
+                {
+                    Type* ST = F->getParamStructRetType(i);
+                    ext << "  verif_memset(a" << i << ", 0, " << C.DL.getTypeAllocSize(ST) << ");\n";
+                }
+            if (!FT->getReturnType()->isVoidTy()) ext << "  return " << (FT->getReturnType()->isPointerTy() ? std::string("(void*)0") : C.zeroOf(FT->getReturnType())) << ";\n";
+            ext << "}\n";
+            metaStub += std::string(metaStub.empty() ? "" : ", ") + "\"" + jsonEsc(F->getName().str()) + (ben ? " (benign)" : " (asserting)") + "\"";
+        }
         metaExt += std::string(metaExt.empty() ? "" : ", ") + "\"" + jsonEsc(F->getName().str()) + "\"";
     }
 
@@ -428,7 +591,7 @@ int main(int argc, char** argv)
         mo << "{\n \"input\": \"" << jsonEsc(Input) << "\", \"mode\": \"" << Mode << "\", \"prefix\": \"" << jsonEsc(Prefix)
            << "\",\n \"threads\": " << threads.size() << ", \"ir_instructions\": " << totalInsts << ", \"visible_ops\": " << totalVisible
            << ",\n \"roots\": [" << (fInit ? "\"init\"" : "\"-\"") << ", " << (fFinal ? "\"final\"" : "\"-\"") << ", " << (fMain ? "\"main\"" : "\"-\"") << "]"
-           << ",\n \"externals\": [" << metaExt << "],\n \"functions\": [\n" << metaFuncs << "\n ]\n}\n";
+           << ",\n \"externals\": [" << metaExt << "],\n \"stubs\": [" << metaStub << "],\n \"functions\": [\n" << metaFuncs << "\n ]\n}\n";
     }
     return 0;
 }
